@@ -19,12 +19,9 @@ Definition c17_hb_step (S : SOps) (h : hist (list (T S))) (o : hop (list (T S)))
 Definition c17_hb_window (S : SOps) (h : hist (list (T S))) : nat := window h.
 Definition c17_hb_get (S : SOps) (h : hist (list (T S))) := hist_get h.
 
-(* spec-level values for the oracle: base statistics, window weights, the coded map score *)
-Definition c17_mean (S : SOps) (lin circ : nat) := mean S lin circ.
-Definition c17_mode (S : SOps) := mode S.
+(* spec-level value for the checks: the coded map score (C17_map_score_meaning) *)
 Definition c17_map_values (S : SOps) := map_values S.
-Definition c17_win_weights (S : SOps) (v : wvariant) (n : nat) := win_weights S v n.
 
 Extraction "C17_model.ml" c17_init c17_step c17_window c17_history c17_caches c17_method
   c17_hb_init c17_hb_step c17_hb_window c17_hb_get
-  c17_mean c17_mode c17_map_values c17_win_weights.
+  c17_map_values.
